@@ -373,3 +373,126 @@ func multiProbe(i int) Case {
 	}
 	return c
 }
+
+// ---------------------------------------------------------------- nested values stored at several locations
+
+// A value with containers nested inside it is stored through a path that
+// matches several locations; then one nested part below one match is changed
+// or removed, and the same part below every other match is read (the matches
+// must not share any of their containers).
+
+type multiForm struct {
+	doc  func() *Node
+	path Path
+}
+
+var multiForms = []multiForm{
+	{func() *Node { return nObj().put("a", nInt(1)).put("b", nInt(2)).put("c", nInt(3)) }, Path{fWild()}},
+	{func() *Node { return nArr(nInt(1), nInt(2), nInt(3)) }, Path{fWild()}},
+	{func() *Node {
+		return nObj().put("a", nObj().put("k", nInt(0))).put("b", nObj().put("k", nInt(0))).put("c", nObj().put("k", nInt(0)))
+	}, Path{fDescent(), fChild("k")}},
+	{func() *Node { return nObj().put("a", nInt(1)).put("b", nInt(2)).put("c", nInt(3)) }, Path{fUnion("a", "b")}},
+	{func() *Node {
+		return nArr(nObj().put("v", nInt(0)), nObj().put("v", nInt(0)), nObj().put("v", nInt(0)))
+	}, Path{fSlice(0, -1), fChild("v")}},
+	{func() *Node { return nObj().put("a", nObj().put("v", nInt(0))).put("b", nObj().put("v", nInt(0))) }, Path{fWild(), fChild("v")}},
+	{func() *Node { return nObj().put("x", nArr(nInt(1), nInt(2))).put("y", nInt(0)) }, Path{fChild("x"), fWild()}},
+}
+
+func nestedValues() []*Node {
+	return []*Node{
+		nArr(nArr(nInt(1), nInt(2)), nArr(nInt(3), nInt(4))),                                           // list of lists
+		nArr(nObj().put("p", nInt(1)), nObj().put("q", nInt(2))),                                       // list of maps
+		nObj().put("l", nArr(nInt(1), nInt(2))).put("m", nArr(nInt(3))),                                // map of lists
+		nObj().put("o", nObj().put("p", nInt(1)).put("q", nInt(2))),                                    // map of maps
+		nObj().put("l", nArr(nObj().put("p", nInt(1)), nObj().put("q", nArr(nInt(1), nInt(2))))),       // map of list of maps (of list)
+		nArr(nArr(nArr(nInt(1)), nArr(nInt(2), nInt(3)))),                                              // list of list of lists
+		nArr(nObj().put("l", nArr(nInt(1), nInt(2))), nInt(5)),                                         // list of map of list
+		nObj().put("o", nObj().put("l", nArr(nInt(1), nArr(nInt(2))))),                                 // map of map of list of list
+		nArr(nInt(0), nArr(nObj().put("p", nObj().put("z", nInt(1))))),                                 // list of list of map of map
+		nObj().put("a", nArr(nArr(nObj().put("p", nInt(1))))).put("b", nObj().put("c", nArr(nInt(1)))), // mixed
+	}
+}
+
+var pNestedValues = nestedValues()
+
+type nestedIdx struct{ form, val, inner, op, target int }
+
+func nestedIndex() []nestedIdx {
+	var out []nestedIdx
+	for f := range multiForms {
+		for v, val := range pNestedValues {
+			n := len(allLocs(val)) - 1
+			for l := 0; l < n; l++ {
+				for op := 0; op < 2; op++ {
+					for t := 0; t < 2; t++ {
+						out = append(out, nestedIdx{f, v, l, op, t})
+					}
+				}
+			}
+		}
+	}
+	return out
+}
+
+var pNestedIndex = nestedIndex()
+
+func nNestedProbes() int { return len(pNestedIndex) }
+
+func nestedProbe(i int) Case {
+	ix := pNestedIndex[i]
+	form := multiForms[ix.form]
+	doc := form.doc()
+	val := pNestedValues[ix.val].clone()
+	mode := []string{"lisp", "bag", "text", "stream"}[i%4]
+	first := Op{Op: "set", Path: form.path, PStr: form.path.render(1), Val: val, ValMode: mode, Send: i%3 == 0, PObj: i%5 == 0}
+	if mode == "text" || mode == "stream" {
+		first.Op = "parse"
+	}
+	ops := []Op{first}
+	after, st, _, _ := modelSet(doc, form.path, val)
+	if st != stOK {
+		return Case{Kind: "path", Doc: doc, Ops: ops, Probe: "path:nested-copy"}
+	}
+	ms, _ := evalPath(after, form.path)
+	inner := allLocs(val)[1+ix.inner].at
+	target := ms[0]
+	if ix.target == 1 {
+		target = ms[len(ms)-1]
+	}
+	at := func(m match) Path { return append(m.at.path(), inner.path()...) }
+	tp := at(target)
+	if ix.op == 0 {
+		ops = append(ops, Op{Op: "set", Path: tp, PStr: tp.render(0), Val: nInt(99), ValMode: "lisp"})
+	} else {
+		ops = append(ops, Op{Op: "remove", Path: tp, PStr: tp.render(0)})
+	}
+	for k, m := range ms {
+		if m.at.String() == target.at.String() {
+			continue
+		}
+		op := at(m)
+		ops = append(ops, Op{Op: []string{"get", "has", "walk", "getall"}[(k+i)%4], Path: op, PStr: op.render(0)})
+	}
+	ops = append(ops, Op{Op: "write"})
+	return Case{Kind: "path", Doc: doc, Ops: ops, Probe: "path:nested-copy"}
+}
+
+// randNestedValue: a container with containers nested 2-3 deep, for values
+// stored at several locations.
+func randNestedValue(r *rand.Rand) (*Node, string) {
+	var v *Node
+	if r.IntN(3) == 0 {
+		v = fw.Pick(r, pNestedValues).clone()
+	} else {
+		p := &profile{nullVal: true, falseVal: true, maxWidth: 3}
+		for try := 0; ; try++ {
+			v = randContainerDoc(r, p, 2+r.IntN(2))
+			if 2 <= v.depth() || 10 < try {
+				break
+			}
+		}
+	}
+	return v, fw.Pick(r, []string{"lisp", "lisp", "bag", "text", "stream"})
+}
